@@ -3,7 +3,7 @@ package main
 // C16 — Save / Create+OnConflict / FirstOrInit / FirstOrCreate converge to the documented state,
 // independent of Session/WithContext calls in the chain.
 //
-// Two suites:
+// Suites (reuse / reuse-tie live in c16_reuse.go, the partial-insert generator and the sql suite in c16_partial.go):
 //   tie  — correspondence: the real finisher on SQLite vs the Lean model (`c16.run`) on the same
 //          table / chain / finisher: table after (all columns, timestamps as 0|NOW), returned
 //          record, RowsAffected, error class.
